@@ -40,12 +40,16 @@ def classes() -> Dict[str, Tuple[Any, Any]]:
             "american_binary": (AmericanBinaryOption, BSAmericanBinaryOption), "lookback": (LookbackOption, BSLookbackOption)}
 
 
-def make_derivative(p: str, call: bool, strike: float):
-    from pfhedge.instruments import BrownianStock
-    ul = BrownianStock(sigma=0.25, dt=0.25, dtype=DT)
+def make_derivative(p: str, call: bool, strike: float, heston: bool = False):
+    from pfhedge.instruments import BrownianStock, HestonStock
+    # (Heston: the volatility of the STOCK is the square root of the simulated variance, element by element; the model's own
+    #  parameter sigma = 0.5 is the volatility of the variance and must not be mistaken for it)
+    ul = HestonStock(sigma=0.5, dt=0.25, dtype=DT) if heston else BrownianStock(sigma=0.25, dt=0.25, dtype=DT)
     d = classes()[p][0](ul, call=call, strike=strike, maturity=0.5)
     d.simulate(n_paths=3)
     ul.register_buffer("spot", torch.tensor([[1.0, 1.25, 0.75], [1.0, 0.5, 1.5], [1.0, 2.0, 2.5]], dtype=DT))
+    if heston:
+        ul.register_buffer("variance", torch.tensor([[0.0625, 0.25, 1.0], [0.0625, 0.015625, 0.5625], [0.0625, 0.09, 0.04]], dtype=DT))
     return d
 
 
@@ -62,11 +66,11 @@ def explicit_for(d) -> Dict[str, torch.Tensor]:
 def replay_modules(ctx: Ctx, recs: List[Dict[str, Any]]) -> None:
     from pfhedge.nn import BlackScholes
     cls = classes()
-    for r in recs:
+    for ri, r in enumerate(recs):
         p, call, K, built, meth = r["p"], r["call"], STRIKE[r["strike"]], r["built"], r["meth"]
         given = set(r["given"])
-        d = make_derivative(p, call, K)
-        detail = {"product": p, "call": call, "strike": K, "built_by": built, "method": meth, "given": sorted(given)}
+        d = make_derivative(p, call, K, heston=(ri % 2 == 1))
+        detail = {"product": p, "call": call, "strike": K, "built_by": built, "method": meth, "given": sorted(given), "underlier": type(d.ul()).__name__}
         try:
             if built == "ctor":
                 m = cls[p][1](call=call, strike=K)
